@@ -225,3 +225,226 @@ package builtInFunctions
 //@   ensures[C04] err == nil && !readFailed && !vmInput.ReturnCallAfterError && snd != ESDTSC() ==> !frozen(old(St), snd, Knft(tok, n)) && !paused(old(St), Kesdt(tok))
 //@   ensures[C15] err == nil ==> WFvalues(St)
 //@   modifies St, failed, readFailed, loadFailed
+
+// ---- ChangeOwnerAddress ---------------------------------------------------------------------------------------
+
+//@ func (c *changeOwnerAddress) ProcessBuiltinFunction
+//@   params c, acntSnd, acntDst, vmInput
+//@   results out, err
+//@   requires c != nil && locksFree()
+//@   requires vmInput == nil || vmInput.CallValue != nil
+//@   requires dstIsRecipient(acntDst, vmInput)
+//@   ensures[C11] shape(out, err)
+//@   ensures[C06] err == nil ==> out.GasRemaining <= vmInput.GasProvided && out.OutputAccounts == nil
+//@   ensures[C16] err == nil && !isNil(acntSnd) ==> vmInput.GasProvided - out.GasRemaining == c.gasCost
+//@   ensures[C17] err == nil ==> failed == old(failed)
+//@   ensures[C03] Owner != old(Owner) ==> !isNil(acntDst) && seq(vmInput.CallerAddr) == old(Owner)[seq(vmInput.RecipientAddr)]
+//@   ensures[C03,C05] forall(a, addr, a != seq(vmInput.RecipientAddr) ==> Owner[a] == old(Owner)[a])
+//@   ensures[C03] err == nil && !isNil(acntDst) ==> Owner[seq(vmInput.RecipientAddr)] == seq(vmInput.Arguments[0])
+//@   modifies Owner, failed
+
+// ---- ClaimDeveloperRewards ---------------------------------------------------------------------------------------
+
+//@ func (c *claimDeveloperRewards) ProcessBuiltinFunction
+//@   params c, acntSnd, acntDst, vmInput
+//@   results out, err
+//@   requires c != nil && locksFree()
+//@   requires vmInput == nil || vmInput.CallValue != nil
+//@   requires dstIsRecipient(acntDst, vmInput) && sndIsCaller(acntSnd, vmInput)
+//@   ensures[C11] shape(out, err)
+//@   ensures[C06] err == nil ==> onlyRcpt(out, seq(vmInput.CallerAddr)) && out.GasRemaining + fwdGas(out, seq(vmInput.CallerAddr)) <= vmInput.GasProvided
+//@   ensures[C17] err == nil ==> failed == old(failed)
+//@   ensures[C03] DevReward != old(DevReward) || Balance != old(Balance) ==> !isNil(acntDst) && seq(vmInput.CallerAddr) == Owner[seq(vmInput.RecipientAddr)]
+//@   ensures[C03,C05] forall(a, addr, a != seq(vmInput.RecipientAddr) ==> DevReward[a] == old(DevReward)[a]) && forall(a, addr, a != seq(vmInput.CallerAddr) ==> Balance[a] == old(Balance)[a])
+//@   ensures[C02,C05] err == nil && !isNil(acntDst) ==> DevReward[seq(vmInput.RecipientAddr)] == 0 && (!isNil(acntSnd) ==> Balance[seq(vmInput.CallerAddr)] == old(Balance)[seq(vmInput.CallerAddr)] + old(DevReward)[seq(vmInput.RecipientAddr)])
+//@   modifies DevReward, Balance, failed
+
+// ---- SetUserName ---------------------------------------------------------------------------------------------------
+
+//@ func (s *saveUserName) ProcessBuiltinFunction
+//@   params s, acntSnd, acntDst, vmInput
+//@   results out, err
+//@   requires s != nil && locksFree()
+//@   requires vmInput == nil || vmInput.CallValue != nil
+//@   requires dstIsRecipient(acntDst, vmInput)
+//@   ensures[C11] shape(out, err)
+//@   ensures[C06] err == nil ==> onlyRcpt(out, seq(vmInput.RecipientAddr)) && out.GasRemaining + fwdGas(out, seq(vmInput.RecipientAddr)) <= vmInput.GasProvided
+//@   ensures[C16] err == nil && !isNil(acntDst) ==> vmInput.GasProvided - out.GasRemaining == s.gasCost && out.OutputAccounts == nil
+//@   ensures[C17] err == nil ==> failed == old(failed)
+//@   ensures[C03] err == nil ==> has(s.mapDnsAddresses, seq(vmInput.CallerAddr))
+//@   ensures[C03] UserName != old(UserName) ==> err == nil && !isNil(acntDst)
+//@   ensures[C03,C05] forall(a, addr, a != seq(vmInput.RecipientAddr) ==> UserName[a] == old(UserName)[a])
+//@   ensures[C05] err == nil && !isNil(acntDst) ==> UserName[seq(vmInput.RecipientAddr)] == seq(vmInput.Arguments[0])
+//@   ensures[C10] err == nil && isNil(acntDst) ==> seq(out.OutputAccounts[seq(vmInput.RecipientAddr)].OutputTransfers[0].Data) == ("SetUserName" + "@") + hex(seq(vmInput.Arguments[0]))
+//@   modifies UserName
+
+// ---- ESDTNFTCreate ------------------------------------------------------------------------------------------------------
+// c is the creator's counter for the token before the call; precondition c < 2^64-1 is justified by
+// the invariant "counter <= number of creates".
+
+//@ func (e *esdtNFTCreate) ProcessBuiltinFunction
+//@   params e, acntSnd, acntDst, vmInput
+//@   results out, err
+//@   view tok = seq(vmInput.Arguments[0])
+//@   view snd = seq(vmInput.CallerAddr)
+//@   view c = beval(St[seq(vmInput.CallerAddr)][Knonce(seq(vmInput.Arguments[0]))]) % 18446744073709551616
+//@   view q = beval(seq(vmInput.Arguments[1]))
+//@   requires e != nil && locksFree()
+//@   requires !isNil(e.marshalizer) && !isNil(e.pauseHandler) && !isNil(e.rolesHandler) && esdtPrefix(e.keyPrefix)
+//@   requires sndIsCaller(acntSnd, vmInput) && WFvalues(St)
+//@   requires argBounds(vmInput) && costBound(e.funcGasCost) && costBound(e.gasConfig.StorePerByte)
+//@   requires vmInput != nil && len(vmInput.Arguments) >= 1 ==> c < 18446744073709551615
+//@   loop 0 invariant totalLength == lsum(list(vmInput.Arguments), 0, rangeindex + 1) && rangeindex + 1 <= len(vmInput.Arguments)
+//@   ensures[C11] shape(out, err)
+//@   ensures[C06] err == nil ==> out.GasRemaining <= vmInput.GasProvided && out.OutputAccounts == nil
+//@   ensures[C16] err == nil ==> vmInput.GasProvided - out.GasRemaining == e.funcGasCost + e.gasConfig.StorePerByte * lsum(list(vmInput.Arguments), 0, len(vmInput.Arguments))
+//@   ensures[C17] err == nil ==> failed == old(failed)
+//@   ensures[C03] err == nil && !readFailed ==> hasRole(old(St), snd, tok, "ESDTRoleNFTCreate") && (q > 1 ==> hasRole(old(St), snd, tok, "ESDTRoleNFTAddQuantity"))
+//@   ensures[C07] err == nil ==> len(out.ReturnData) == 1 && seq(out.ReturnData[0]) == be(c + 1) && St[snd][Knonce(tok)] == be(c + 1)
+//@   ensures[C02,C07] err == nil ==> q > 0 && len(St[snd][Knft(tok, c + 1)]) != 0 && dVal(St[snd][Knft(tok, c + 1)]) == q && !dValNil(St[snd][Knft(tok, c + 1)])
+//@   ensures[C02,C05] err == nil ==> forall(a, addr, k, bseq, !(a == snd && (k == Knft(tok, c + 1) || k == Knonce(tok))) ==> St[a][k] == old(St)[a][k])
+//@   ensures[C08] err == nil ==> dHasMeta(St[snd][Knft(tok, c + 1)]) && dMNonce(St[snd][Knft(tok, c + 1)]) == c + 1 && dMName(St[snd][Knft(tok, c + 1)]) == seq(vmInput.Arguments[2]) && dMCreator(St[snd][Knft(tok, c + 1)]) == snd && dMRoy(St[snd][Knft(tok, c + 1)]) <= 10000 && dMRoy(St[snd][Knft(tok, c + 1)]) == (beval(seq(vmInput.Arguments[3])) % 18446744073709551616) % 4294967296 && dMHash(St[snd][Knft(tok, c + 1)]) == seq(vmInput.Arguments[4]) && dMAttrs(St[snd][Knft(tok, c + 1)]) == seq(vmInput.Arguments[5]) && dType(St[snd][Knft(tok, c + 1)]) == 1
+//@   ensures[C08] err == nil ==> llen(dMURIs(St[snd][Knft(tok, c + 1)])) == len(vmInput.Arguments) - 6 && forall(i, int, 6 <= i && i < len(vmInput.Arguments) ==> lnth(dMURIs(St[snd][Knft(tok, c + 1)]), i - 6) == seq(vmInput.Arguments[i]))
+//@   ensures[C04] err == nil && !readFailed && !vmInput.ReturnCallAfterError && snd != ESDTSC() ==> !paused(old(St), Kesdt(tok)) && !paused(old(St), Knft(tok, c + 1))
+//@   ensures[C15] err == nil ==> WFvalues(St)
+//@   modifies St, failed, readFailed, loadFailed
+
+// ---- ESDTSetRole / ESDTUnSetRole, role check --------------------------------------------------------------------------------
+
+//@ func doesRoleExist
+//@   results index, exist
+//@   requires roles != nil
+//@   ensures exist ==> 0 <= index && index < len(roles.Roles) && seq(roles.Roles[index]) == seq(role)
+//@   ensures !exist ==> index == 0 - 1
+
+//@ func deleteRoles
+//@   requires roles != nil
+//@   loop 0 invariant frame(roles) && frame(roles.Roles) && arr(roles.Roles) == old(arr(roles.Roles))
+//@   ensures arr(roles.Roles) == old(arr(roles.Roles))
+//@   modifies roles.Roles, elems(roles.Roles)
+
+//@ func (e *esdtRoles) CheckAllowedToExecute
+//@   implements vmcommon.ESDTRoleHandler.CheckAllowedToExecute
+//@   requires e != nil && !isNil(e.marshalizer)
+
+//@ func (e *esdtRoles) ProcessBuiltinFunction
+//@   params e, acntSnd, acntDst, vmInput
+//@   results out, err
+//@   view tok = seq(vmInput.Arguments[0])
+//@   view dst = seq(vmInput.RecipientAddr)
+//@   requires e != nil && !isNil(e.marshalizer)
+//@   requires dstIsRecipient(acntDst, vmInput)
+//@   ensures[C11] shape(out, err)
+//@   ensures[C06] err == nil ==> out.GasRemaining == 0 && out.OutputAccounts == nil
+//@   ensures[C17] err == nil ==> failed == old(failed)
+//@   ensures[C03] err == nil ==> seq(vmInput.CallerAddr) == ESDTSC()
+//@   ensures[C02,C03,C05] err == nil ==> onlyChanged(St, old(St), dst, Krole(tok))
+//@   ensures[C03] err == nil && !readFailed && e.set ==> llen(dRoles(St[dst][Krole(tok)])) == ite(len(old(St)[dst][Krole(tok)]) == 0, 0, llen(dRoles(old(St)[dst][Krole(tok)]))) + len(vmInput.Arguments) - 1 && forall(i, int, 1 <= i && i < len(vmInput.Arguments) ==> lnth(dRoles(St[dst][Krole(tok)]), llen(dRoles(St[dst][Krole(tok)])) - len(vmInput.Arguments) + i) == seq(vmInput.Arguments[i]))
+//@   modifies St, failed, readFailed
+
+// ---- ESDTNFTCreateRoleTransfer --------------------------------------------------------------------------------------------------
+
+//@ func (e *esdtNFTCreateRoleTransfer) addCreateRoleToAccount
+//@   requires e != nil && !isNil(e.marshalizer) && !isNil(acntDst)
+//@   ensures[C17] err == nil ==> failed == old(failed)
+//@   ensures[C07] err == nil && !readFailed ==> len(St[addr(acntDst)][seq(esdtTokenRoleKey)]) != 0 && lcontains(dRoles(St[addr(acntDst)][seq(esdtTokenRoleKey)]), "ESDTRoleNFTCreate")
+//@   ensures[C05] onlyChanged(St, old(St), addr(acntDst), seq(esdtTokenRoleKey))
+//@   ensures old(readFailed) ==> readFailed
+//@   modifies St, failed, readFailed
+
+//@ func (e *esdtNFTCreateRoleTransfer) ProcessBuiltinFunction
+//@   params e, acntSnd, acntDst, vmInput
+//@   results out, err
+//@   view tok = seq(vmInput.Arguments[0])
+//@   view dst = seq(vmInput.RecipientAddr)
+//@   view c = beval(St[seq(vmInput.RecipientAddr)][Knonce(seq(vmInput.Arguments[0]))]) % 18446744073709551616
+//@   view nxt = seq(vmInput.Arguments[1])
+//@   requires e != nil && !isNil(e.marshalizer) && !isNil(e.accounts) && !isNil(e.shardCoordinator)
+//@   requires dstIsRecipient(acntDst, vmInput)
+//@   ensures[C11] shape(out, err)
+//@   ensures[C06] err == nil ==> out.GasRemaining == 0 && (seq(vmInput.CallerAddr) == ESDTSC() ==> onlyRcpt(out, nxt) && fwdGas(out, nxt) == 0) && (seq(vmInput.CallerAddr) != ESDTSC() ==> out.OutputAccounts == nil)
+//@   ensures[C17] err == nil ==> failed == old(failed)
+//@   ensures[C03] err == nil ==> isNil(acntSnd)
+//@   ensures[C07] err == nil && seq(vmInput.CallerAddr) == ESDTSC() && dst != nxt ==> len(St[dst][Knonce(tok)]) == 0
+//@   ensures[C07,C10] err == nil && seq(vmInput.CallerAddr) == ESDTSC() ==> seq(out.OutputAccounts[nxt].OutputTransfers[0].Data) == ((("ESDTNFTCreateRoleTransfer" + "@") + hex(tok)) + "@") + hex(be(c))
+//@   ensures[C07] err == nil && !readFailed && seq(vmInput.CallerAddr) == ESDTSC() && shardOf(nxt) == selfShard ==> St[nxt][Knonce(tok)] == be(c) && len(St[nxt][Krole(tok)]) != 0 && lcontains(dRoles(St[nxt][Krole(tok)]), "ESDTRoleNFTCreate")
+//@   ensures[C07] err == nil && !readFailed && seq(vmInput.CallerAddr) != ESDTSC() ==> St[dst][Knonce(tok)] == be(beval(nxt) % 18446744073709551616) && len(St[dst][Krole(tok)]) != 0 && lcontains(dRoles(St[dst][Krole(tok)]), "ESDTRoleNFTCreate")
+//@   ensures[C02,C05,C07] err == nil ==> forall(a, addr, k, bseq, !((a == dst || (a == nxt && seq(vmInput.CallerAddr) == ESDTSC() && shardOf(nxt) == selfShard)) && (k == Knonce(tok) || k == Krole(tok))) ==> St[a][k] == old(St)[a][k])
+//@   modifies St, failed, readFailed, loadFailed
+
+// ---- SaveKeyValue ---------------------------------------------------------------------------------------------------------------
+
+//@ func (k *saveKeyValueStorage) ProcessBuiltinFunction
+//@   params k, acntSnd, acntDst, input
+//@   results out, err
+//@   view a = seq(input.CallerAddr)
+//@   requires k != nil && locksFree()
+//@   requires input == nil || input.CallValue != nil
+//@   requires sndIsCaller(acntSnd, input)
+//@   requires argBounds(input) && costBound(k.funcGasCost) && costBound(k.gasConfig.PersistPerByte) && costBound(k.gasConfig.StorePerByte)
+//@   loop 0 invariant 0 <= i && i <= len(input.Arguments) && i % 2 == 0
+//@   loop 0 invariant useGas <= k.funcGasCost + lsum(list(input.Arguments), 0, i) * 8589934592
+//@   loop 0 invariant forall(b, addr, key, bseq, (b != a || (len(key) >= 6 && key[0:6] == "ELROND")) ==> St[b][key] == old(St)[b][key])
+//@   loop 0 invariant forall(key, bseq, St[a][key] != old(St)[a][key] ==> lcontains(list(input.Arguments), key))
+//@   loop 0 invariant failed == old(failed) && (old(readFailed) ==> readFailed)
+//@   ensures[C11] shape(out, err)
+//@   ensures[C06] err == nil ==> out.GasRemaining <= input.GasProvided && out.OutputAccounts == nil
+//@   ensures[C05] err == nil ==> seq(input.CallerAddr) == seq(input.RecipientAddr) && !(len(input.CallerAddr) > 10 && (seq(input.CallerAddr) == bzeros(len(input.CallerAddr)) || seq(input.CallerAddr)[0:8] == bzeros(8)))
+//@   ensures[C05] forall(b, addr, key, bseq, (b != a || (len(key) >= 6 && key[0:6] == "ELROND")) ==> St[b][key] == old(St)[b][key])
+//@   ensures[C05] forall(key, bseq, St[a][key] != old(St)[a][key] ==> lcontains(list(input.Arguments), key))
+//@   ensures[C17] err == nil ==> failed == old(failed)
+//@   modifies St, failed, readFailed
+
+// ---- emitters -----------------------------------------------------------------------------------------------------------------------
+
+//@ func addOutputTransferToVMOutput
+//@   requires vmOutput != nil
+//@   loop 0 invariant seq(esdtTransferTxData) == wire(seq(function), list(arguments), rangeindex + 1) && rangeindex + 1 <= len(arguments)
+//@   ensures[C06] vmOutput.GasRemaining == 0
+//@   ensures[C06,C10] vmOutput.OutputAccounts != nil && fresh(vmOutput.OutputAccounts) && forall(k, bseq, has(vmOutput.OutputAccounts, k) == (k == seq(recipient)))
+//@   ensures[C06,C10,C16] vmOutput.OutputAccounts[seq(recipient)] != nil && fresh(vmOutput.OutputAccounts[seq(recipient)]) && seq(vmOutput.OutputAccounts[seq(recipient)].Address) == seq(recipient) && len(vmOutput.OutputAccounts[seq(recipient)].OutputTransfers) == 1
+//@   ensures[C06,C16] vmOutput.OutputAccounts[seq(recipient)].OutputTransfers[0].GasLimit == old(vmOutput.GasRemaining) && vmOutput.OutputAccounts[seq(recipient)].OutputTransfers[0].GasLocked == gasLocked && vmOutput.OutputAccounts[seq(recipient)].OutputTransfers[0].CallType == callType
+//@   ensures[C10] seq(vmOutput.OutputAccounts[seq(recipient)].OutputTransfers[0].Data) == wireOf(seq(function), arguments) && seq(vmOutput.OutputAccounts[seq(recipient)].OutputTransfers[0].SenderAddress) == seq(senderAddress)
+//@   ensures[C10] vmOutput.OutputAccounts[seq(recipient)].OutputTransfers[0].Value != nil && bigval(vmOutput.OutputAccounts[seq(recipient)].OutputTransfers[0].Value) == 0
+//@   modifies vmOutput.OutputAccounts, vmOutput.GasRemaining, newmap(vmOutput.OutputAccounts), new(vmcommon.OutputAccount), new([]vmcommon.OutputTransfer), new(big.Int)
+
+//@ func addNFTTransferToVMOutput
+//@   requires vmOutput != nil
+//@   loop 0 invariant seq(nftTransferTxData) == wire(seq(funcToCall), list(arguments), rangeindex + 1) && rangeindex + 1 <= len(arguments)
+//@   ensures[C06,C10] vmOutput.OutputAccounts != nil && fresh(vmOutput.OutputAccounts) && forall(k, bseq, has(vmOutput.OutputAccounts, k) == (k == seq(recipient)))
+//@   ensures[C06,C10,C16] vmOutput.OutputAccounts[seq(recipient)] != nil && fresh(vmOutput.OutputAccounts[seq(recipient)]) && seq(vmOutput.OutputAccounts[seq(recipient)].Address) == seq(recipient) && len(vmOutput.OutputAccounts[seq(recipient)].OutputTransfers) == 1
+//@   ensures[C06,C16] vmOutput.OutputAccounts[seq(recipient)].OutputTransfers[0].GasLimit == gasLimit && vmOutput.OutputAccounts[seq(recipient)].OutputTransfers[0].GasLocked == gasLocked && vmOutput.OutputAccounts[seq(recipient)].OutputTransfers[0].CallType == callType
+//@   ensures[C10] seq(vmOutput.OutputAccounts[seq(recipient)].OutputTransfers[0].Data) == wireOf(seq(funcToCall), arguments) && seq(vmOutput.OutputAccounts[seq(recipient)].OutputTransfers[0].SenderAddress) == seq(senderAddress)
+//@   ensures[C10] vmOutput.OutputAccounts[seq(recipient)].OutputTransfers[0].Value != nil && bigval(vmOutput.OutputAccounts[seq(recipient)].OutputTransfers[0].Value) == 0
+//@   modifies vmOutput.OutputAccounts, newmap(vmOutput.OutputAccounts), new(vmcommon.OutputAccount), new([]vmcommon.OutputTransfer), new(big.Int)
+
+// ---- ESDTTransfer ---------------------------------------------------------------------------------------------------------------------
+// hasS / hasD: the sender / destination account lives on the executing shard.
+
+//@ func (e *esdtTransfer) ProcessBuiltinFunction
+//@   params e, acntSnd, acntDst, vmInput
+//@   results out, err
+//@   view tok = seq(vmInput.Arguments[0])
+//@   view q = beval(seq(vmInput.Arguments[1]))
+//@   view snd = seq(vmInput.CallerAddr)
+//@   view dst = seq(vmInput.RecipientAddr)
+//@   view K = Kesdt(seq(vmInput.Arguments[0]))
+//@   requires e != nil && locksFree()
+//@   requires !isNil(e.marshalizer) && !isNil(e.pauseHandler) && !isNil(e.payableHandler) && !isNil(e.shardCoordinator) && esdtPrefix(e.keyPrefix)
+//@   requires sndIsCaller(acntSnd, vmInput) && dstIsRecipient(acntDst, vmInput) && WFvalues(St)
+//@   ensures[C11] shape(out, err)
+//@   ensures[C06] err == nil ==> onlyRcpt(out, dst) && out.GasRemaining + fwdGas(out, dst) <= vmInput.GasProvided
+//@   ensures[C16] err == nil && !isNil(acntSnd) ==> out.GasRemaining + fwdGas(out, dst) == vmInput.GasProvided - e.funcGasCost
+//@   ensures[C17] err == nil ==> failed == old(failed)
+//@   ensures[C01,C02] err == nil ==> q > 0 && onlyChanged2(St, old(St), snd, K, dst, K)
+//@   ensures[C01,C02] err == nil && !readFailed && !isNil(acntSnd) ==> val(old(St), snd, K) >= q
+//@   ensures[C01,C02] err == nil && !readFailed && snd != dst ==> val(St, snd, K) == val(old(St), snd, K) - ite(isNil(acntSnd), 0, q) && val(St, dst, K) == val(old(St), dst, K) + ite(isNil(acntDst), 0, q)
+//@   ensures[C01,C02] err == nil && !readFailed && snd == dst ==> val(St, snd, K) == val(old(St), snd, K) - ite(isNil(acntSnd), 0, q) + ite(isNil(acntDst), 0, q)
+//@   ensures[C04] err == nil && !readFailed && !vmInput.ReturnCallAfterError && !isNil(acntSnd) && snd != ESDTSC() ==> !frozen(old(St), snd, K) && !paused(old(St), K)
+//@   ensures[C04] err == nil && !readFailed && !vmInput.ReturnCallAfterError && !isNil(acntDst) && dst != ESDTSC() && snd != dst && snd != SYS() ==> !frozen(old(St), dst, K) && !paused(old(St), K)
+//@   ensures[C09] err == nil ==> shardOf(dst) != 4294967295
+//@   ensures[C09] err == nil && !isNil(acntDst) && mustVerify(vmInput, 2) ==> payable(dst)
+//@   ensures[C10] err == nil && isNil(acntDst) && isSC(snd) ==> has(out.OutputAccounts, dst) && seq(out.OutputAccounts[dst].OutputTransfers[0].Data) == wireOf("ESDTTransfer", vmInput.Arguments)
+//@   ensures[C10] err == nil && isNil(acntDst) && !isSC(snd) ==> out.OutputAccounts == nil
+//@   ensures[C15] err == nil ==> WFvalues(St)
+//@   modifies St, failed, readFailed, loadFailed
